@@ -348,4 +348,20 @@ theorem tie_skel_addGlobalBufferManagerRefCount : Gen.Skel.addGlobalBufferManage
   "bufferManagers.Unlock()",
   "}"] := by rfl
 
+/-! the receiving side's view of a handed-out buffer (payload window = the slot's payload, nothing more) -/
+theorem tie_skel_bufferManager_readBufferSlice_c01 : Gen.Skel.bufferManager_readBufferSlice = [
+  "func (b *bufferManager) readBufferSlice(offset uint32) (*bufferSlice, error) {",
+  "if int(offset)+bufferHeaderSize >= len(b.mem) {",
+  "return nil, fmt.Errorf(\"broken share memory. readBufferSlice unexpected offset:%d buffers cap:%d\",",
+  "offset, len(b.mem))",
+  "}",
+  "bufCap := *(*uint32)(unsafe.Pointer(&b.mem[offset+bufferCapOffset]))",
+  "bufEndOffset := offset + uint32(bufferHeaderSize) + bufCap",
+  "if bufEndOffset > uint32(len(b.mem)) {",
+  "return nil, fmt.Errorf(\"broken share memory. readBufferSlice unexpected bufferEndOffset:%d. bufferStartOffset:%d buffers cap:%d\",",
+  "bufEndOffset, offset, len(b.mem))",
+  "}",
+  "return newBufferSlice(b.mem[offset:offset+bufferHeaderSize], b.mem[offset+bufferHeaderSize:bufEndOffset], offset, true), nil",
+  "}"] := by rfl
+
 end Tie.C01
